@@ -1,8 +1,8 @@
 package rules
 
 import (
-	"go/constant"
 	"fmt"
+	"go/constant"
 	"go/token"
 	"go/types"
 	"strings"
@@ -606,7 +606,7 @@ func p3p5Core(r *Run, rep *core.Report, prop string, mm *core.MapModel) {
 	for _, sp := range specsFor(r, mm.Core) {
 		cf := coreFlow(r, mm, sp)
 		rep.Spec(cf.Name)
-		for _, tag := range []string{"P3", "P5"} {
+		for _, tag := range []string{"P3", "P5", "P14"} {
 			fds := cf.tagged(tag)
 			for _, fd := range fds {
 				rep.Fail(prop+"."+tag, cf.Name+" "+tag, r.P.InstrPos(fd.Instr), fd.Msg, cf.M.Trace(fd.At)...)
@@ -615,6 +615,9 @@ func p3p5Core(r *Run, rep *core.Report, prop string, mm *core.MapModel) {
 				msg := "every bucket access under the lock follows the flag-then-table validation"
 				if tag == "P5" {
 					msg = "bucket words are written only while the bucket lock is held"
+				}
+				if tag == "P14" {
+					msg = "every slot write pairs a bucket with an index of that bucket (both live, or remembered together)"
 				}
 				rep.Pass(prop+"."+tag, cf.Name+" "+tag, r.P.Pos(mm.Core.Pos()), msg)
 			}
@@ -746,9 +749,16 @@ func p4Resize(r *Run, rep *core.Report, prop string, mm *core.MapModel) {
 		cas = cv.(ssa.Instruction)
 	}
 	if cas != nil {
+		nSrc := 0
 		srcOK := func(v ssa.Value, at ssa.Instruction, what string) {
 			roots := map[ssa.Value]string{}
 			tableFieldLoads(mm, v, roots, map[ssa.Value]bool{}, 0)
+			if len(roots) == 0 && core.NamedOf(v.Type()) == mm.TableT {
+				roots[core.StripConv(v)] = "" // the table value itself (handed to a helper that holds the copy loop)
+			}
+			if what == "copy source" {
+				nSrc++
+			}
 			if len(roots) == 0 {
 				if _, isConst := core.StripConv(v).(*ssa.Const); isConst {
 					return
@@ -791,7 +801,38 @@ func p4Resize(r *Run, rep *core.Report, prop string, mm *core.MapModel) {
 			case mm.NewTable:
 				srcOK(c.Call.Args[0], in, "new table length")
 			}
+			// the copy loop moved into a helper: the table argument its copy sources are taken from
+			for _, h := range mm.ResizeHelpers {
+				if core.Callee(c) != h {
+					continue
+				}
+				core.Instrs(h, func(in2 ssa.Instruction) {
+					c2, ok := in2.(*ssa.Call)
+					if !ok || core.Callee(c2) != mm.Copy {
+						return
+					}
+					for i, p := range mm.Copy.Params {
+						if !isBucketType(r, elemOf(p.Type())) {
+							continue
+						}
+						ia, isIA := c2.Call.Args[i].(*ssa.IndexAddr)
+						if !isIA {
+							continue
+						}
+						roots := map[ssa.Value]string{}
+						tableFieldLoads(mm, ia.X, roots, map[ssa.Value]bool{}, 0)
+						for root := range roots {
+							if prm, isP := root.(*ssa.Parameter); isP {
+								if pi := paramIndexOf(h, prm); pi >= 0 && pi < len(c.Call.Args) {
+									srcOK(c.Call.Args[pi], in, "copy source")
+								}
+							}
+						}
+					}
+				})
+			}
 		})
+		rep.MinCount(prop+".P4", "copy sources judged in "+fn(f), nSrc, 1)
 	}
 	// table pointer written only by resize and the constructor (fresh map object)
 	for _, g := range r.P.Funcs {
@@ -1024,6 +1065,8 @@ func packedLoads(r *Run, v ssa.Value, out map[ssa.Value]ssa.Value, seen map[ssa.
 		return
 	}
 	switch x := v.(type) {
+	case *ssa.Parameter:
+		out[v] = v // the word is handed in by the caller: judged at the call sites
 	case *ssa.UnOp:
 		if x.Op == token.MUL {
 			if k, _ := slotKind(r, x.X); k == "meta" {
@@ -1099,6 +1142,37 @@ func p10RMW(r *Run, rep *core.Report, prop string, mm *core.MapModel) {
 			okv := true
 			why := ""
 			for ld, b := range loads {
+				if prm, isP := ld.(*ssa.Parameter); isP {
+					// a helper that writes the word it is given into the bucket it is given: at every call site the
+					// word must have been read from that very bucket
+					pi := paramIndexOf(f, prm)
+					di := -1
+					if dp, isDP := core.StripConv(dst).(*ssa.Parameter); isDP {
+						di = paramIndexOf(f, dp)
+					}
+					sites := core.CallSitesOf(r.P.Funcs, f)
+					if pi < 0 || di < 0 || len(sites) == 0 {
+						continue
+					}
+					for _, site := range sites {
+						args := site.Common().Args
+						if pi >= len(args) || di >= len(args) {
+							continue
+						}
+						l2 := map[ssa.Value]ssa.Value{}
+						packedLoads(r, args[pi], l2, map[ssa.Value]bool{}, 0)
+						for ld2, b2 := range l2 {
+							if _, again := ld2.(*ssa.Parameter); again {
+								continue
+							}
+							if core.StripConv(b2) != core.StripConv(args[di]) {
+								okv = false
+								why = fmt.Sprintf("at the call site %s the word handed to %s was read from bucket %s but is written to bucket %s", r.P.InstrPos(site), fn(f), b2.Name(), args[di].Name())
+							}
+						}
+					}
+					continue
+				}
 				if core.StripConv(b) != core.StripConv(dst) {
 					okv = false
 					why = fmt.Sprintf("the new word for bucket %s is computed from the word read from bucket %s (%s)", dst.Name(), b.Name(), r.P.InstrPos(ld.(ssa.Instruction)))
